@@ -6,7 +6,7 @@ use serde_json::json;
 pub fn generate(a: &Args) {
     let mut out = Out::create(&a.out);
     let mut rng = Rng::new(a.seed ^ 0xC10);
-    let hists = if is_thorough(a) { 40 } else { 4 };
+    let hists = if is_thorough(a) { 200 } else { 4 };
     let limits = [0usize, 1, 3, 20];
     for (k, name) in NAMES.iter().enumerate() {
         for hidx in 0..hists {
